@@ -131,6 +131,43 @@ func propC03(c *ctx) error {
 			res.SelfTest = append(res.SelfTest, "C03 control: condition "+cv+" does not hold: "+impl.text())
 		}
 	}
+	// a value-less else written in a tag folded over lines: the white space after the name (blank, tab, newline, CR, several)
+	// and what follows it (another attribute, the end of the tag) do not change which branch is rendered
+	for _, ws := range []string{" ", "\n", "\t", "\r", "\r\n", "\n  ", " \n", "\t\t", "\f"} {
+		for _, after := range []string{`class="x"`, `id=y`, `hidden`, ``} {
+			for _, ok := range []bool{true, false} {
+				for _, first := range []bool{false, true} { // the else attribute first or after another attribute
+					open := `<p :else` + ws + after + `>`
+					attrs := after
+					if first {
+						open = `<p ` + after + ws + `:else` + ws + `>`
+						if after == "" {
+							continue
+						}
+					}
+					tpl := `<p :if="${ok}">A</p>` + open + `B</p>`
+					want := "<p>A</p>"
+					if !ok {
+						want = "<p>B</p>"
+						if attrs != "" {
+							want = "<p " + attrs + ">B</p>"
+						}
+					}
+					rc := &renderCase{Files: [][2]string{{"t", tpl}}, Tpl: "t", Data: vMap(kv{"ok", vBool(ok)}).j}
+					impl, _, err := compareRender(c, rc, true)
+					if err != nil {
+						return err
+					}
+					res.eval("folded-else|"+tpl+fmt.Sprint(ok), true, J{"tpl": tpl})
+					res.S3Checked++
+					res.count("folded_valueless_else")
+					if impl.St != "ok" || impl.text() != want {
+						res.violate(rc.toJ(), want, J{"st": impl.St, "out": impl.text()}, "a value-less else followed by white space other than a blank is not taken as the else of its chain")
+					}
+				}
+			}
+		}
+	}
 	res.Rule = "all chain lengths 1..4 x with/without else x all truth assignments x placements (top, nested, range body, fragment, branch of another chain) x one extra directive x separators, plus histories of executions of one template object; distinct = distinct (template,data); non-trivial = every case (each has at least one chain)"
 	type chainCase struct {
 		rc       *renderCase
